@@ -89,6 +89,39 @@ def list_take_alls(fn):
     return out
 
 
+def alloc_too_small(fn):
+    """[(node, requested bytes, object bytes)]: `T *p = aws_mem_acquire(a, n)` / `aws_mem_calloc(a, k, n)` with a constant
+    request smaller than one T (sizeof(p) written for sizeof(*p)): the object's later fields lie outside the block"""
+    out = []
+
+    def size_of(c):
+        if c.get("callee") == "aws_mem_acquire" and len(c["a"]) >= 2:
+            return fn.is_const(uncast(fn, arg(fn, c, 1)))
+        if c.get("callee") == "aws_mem_calloc" and len(c["a"]) >= 3:
+            a_, b_ = fn.is_const(uncast(fn, arg(fn, c, 1))), fn.is_const(uncast(fn, arg(fn, c, 2)))
+            return a_ * b_ if a_ is not None and b_ is not None else None
+        return None
+    for b in fn.blocks.values():
+        for el in b.elems:
+            for x in fn.walk(el):
+                pairs = []
+                if x["k"] == "decl":
+                    pairs = [(v.get("t"), v.get("init")) for v in x["vars"] if v.get("init") is not None]
+                elif x["k"] == "bin" and x["op"] == "=":
+                    pairs = [((fn.d(x["a"][0]) or {}).get("t"), x["a"][1])]
+                for t_, rhs in pairs:
+                    c = uncast(fn, rhs)
+                    while c is not None and c["k"] == "cast":
+                        c = uncast(fn, c["a"][0])
+                    if c is None or c["k"] != "call" or t_ is None or t_ < 0:
+                        continue
+                    n = size_of(c)
+                    T = fn.unit.types[t_] or {}
+                    if n is not None and T.get("ptr") and T.get("rec") and T.get("psz") and n < T["psz"]:
+                        out.append((c, n, T["psz"]))
+    return out
+
+
 def loop_cover(fn, header, body):
     """The index range a counting loop presents to its body, whichever way it counts.  Returns (var name, N node, form) when
     the body runs once for every value 0 <= v < N of the local v (written nowhere else in the loop):
